@@ -100,6 +100,9 @@ def _job(job) -> List[Dict[str, Any]]:
         el = info["src"].elem
         if not info["key_given"] and isinstance(el, TupleV) and any(not isinstance(x, (Num, Bool)) for x in el.items[1:]) and info["inverse_of"] is None:
             problems.append("sort without a key: tied teams are ordered by comparing the team lists / rating objects, not kept in input order")
+        if isinstance(el, Ptr) and el.loc == "IN.player":
+            problems.append("the players of a team are re-ordered by a value-dependent sort: anything written back by the caller's positions (posteriors, priors for the cap) is paired with "
+                            "another team-mate, so the order in which a team's players are listed changes the result")
         by_raw = isinstance(kv, Num) and "RANKRAW" in kv.prov
         if by_raw and not problems:
             good_rank_sorts.add(pid)
